@@ -274,6 +274,9 @@ func (c *Ctx) Finish(evaluations, distinctNontrivial int64, rule string) int {
 	for _, k := range c.known {
 		if n := c.knownHit[k.Sig]; n > 0 {
 			fmt.Printf("KNOWN-FINDING: property=%s %s (%d occurrences this run) %s\n", c.Prop, k.Sig, n, k.Desc)
+		} else {
+			// listed in KNOWN_FINDINGS.txt but this tier/seed did not drive an input that shows it
+			fmt.Printf("KNOWN-FINDING: property=%s %s (listed; not re-observed in this run) %s\n", c.Prop, k.Sig, k.Desc)
 		}
 	}
 	var ik []string
